@@ -31,8 +31,13 @@ Definition is_err (e : err) : bool := match e with ENone => false | _ => true en
     [ErrAt k]: the destination accepts the bytes before absolute offset [k] and
     answers every write reaching [k] with the accepted count and an error.
     [ShortAt k]: the first write reaching [k] accepts only the bytes before [k]
-    and returns a nil error (once); every other write is complete. *)
-Inductive fault := NoFault | ErrAt (k : N) | ShortAt (k : N).
+    and returns a nil error (once); every other write is complete.
+    [FullErrAt k]: the write that takes the byte before offset [k] (it starts
+    before [k] and reaches it) accepts ALL its bytes and returns the full
+    count together with an error (a quota reached with this write, a failed
+    commit of the block); every other write is complete with a nil error.
+    The position is beyond [k] afterwards, so this happens once. *)
+Inductive fault := NoFault | ErrAt (k : N) | ShortAt (k : N) | FullErrAt (k : N).
 
 Section Sink.
   Variable A : Type.
@@ -63,6 +68,9 @@ Section Sink.
         if s_fired s || (s_pos s + len <=? k) then (sink_accept s p (s_fired s), len, ENone)
         else let n := k - s_pos s in
              (sink_accept s (firstn (N.to_nat n) p) true, n, ENone)
+    | FullErrAt k =>
+        (sink_accept s p (s_fired s), len,
+         if (s_pos s <? k) && (k <=? s_pos s + len) then ESink else ENone)
     end.
 
   (** (B) bufio.Writer of size b_size (>= 1) over the destination.
